@@ -211,6 +211,32 @@ func (c *m2) assigned2(stmts []ast.Stmt, from token.Pos) []types.Object {
 				if _, sel, _, mutates, ok := c.absPeek(n); ok && mutates {
 					add(sel.X)
 				}
+				isCopy := false
+				if id, ok := n.Fun.(*ast.Ident); ok && id.Name == "copy" {
+					isCopy = true
+				}
+				if s1, ok := n.Fun.(*ast.SelectorExpr); ok && s1.Sel.Name == "PutUint32" {
+					isCopy = true
+				}
+				if isCopy && len(n.Args) > 0 {
+					d := n.Args[0]
+					if se, ok := d.(*ast.SliceExpr); ok {
+						d = se.X
+					}
+					add(d)
+				}
+				if sig := c.calleeSig(n); sig != nil {
+					for _, w := range sig.wfields {
+						if o, ok := c.fieldObjs[w]; ok && !seen[o] {
+							seen[o] = true
+							out = append(out, o)
+						} else if !ok {
+							o := c.fieldObj(w, nil)
+							seen[o] = true
+							out = append(out, o)
+						}
+					}
+				}
 			case *ast.RangeStmt:
 				if n.Tok == token.ASSIGN {
 					if n.Key != nil {
@@ -448,6 +474,31 @@ func (c *m2) simple(s ast.Stmt, ind string) {
 		c.fail(s, "nested block statement")
 	case *ast.ExprStmt:
 		if call, ok := s.X.(*ast.CallExpr); ok {
+			if c.writeIntrinsic(call, ind) {
+				return
+			}
+			if sig := c.calleeSig(call); sig != nil && !sig.hasErr && sig.nGo == 0 && len(sig.wfields) > 0 {
+				// a procedure: rebind the fields it wrote
+				c.cmt(ind, s)
+				text := c.callText(call, sig)
+				c.flush(ind)
+				for _, w := range sig.wfields {
+					c.addWFieldT(w, sig.wfieldTy[w])
+				}
+				names := strings.Join(sig.wfields, ", ")
+				if sig.fallible {
+					c.effect = true
+					if len(sig.wfields) > 1 {
+						names = "(" + names + ")"
+					}
+					c.emitf(ind, "do %s <- %s ;;", names, text)
+				} else if len(sig.wfields) > 1 {
+					c.emitf(ind, "let '(%s) := %s in", names, text)
+				} else {
+					c.emitf(ind, "let %s := %s in", names, text)
+				}
+				return
+			}
 			if ac, ok := c.absCall(call); ok && ac.mutates && !ac.hasErr {
 				c.cmt(ind, s)
 				c.flush(ind)
@@ -464,6 +515,67 @@ func (c *m2) simple(s ast.Stmt, ind string) {
 	default:
 		c.fail(s, "unsupported statement %s `%s`", nodeName(s), c.firstLine(s))
 	}
+}
+
+// writeIntrinsic: copy(dst[off:], src) and binary.LittleEndian.PutUint32(dst[off:], v) with dst a local array
+func (c *m2) writeIntrinsic(call *ast.CallExpr, ind string) bool {
+	kind := ""
+	if id, ok := call.Fun.(*ast.Ident); ok {
+		if b, isB := c.obj(id).(*types.Builtin); isB && b.Name() == "copy" {
+			kind = "copy"
+		}
+	}
+	if s1, ok := call.Fun.(*ast.SelectorExpr); ok && s1.Sel.Name == "PutUint32" {
+		if s2, ok := s1.X.(*ast.SelectorExpr); ok && s2.Sel.Name == "LittleEndian" {
+			if pk, ok := s2.X.(*ast.Ident); ok {
+				if pn, isPkg := c.obj(pk).(*types.PkgName); isPkg && pn.Imported().Path() == "encoding/binary" {
+					kind = "put32"
+				}
+			}
+		}
+	}
+	if kind == "" {
+		return false
+	}
+	if len(call.Args) != 2 || call.Ellipsis.IsValid() {
+		c.fail(call, "unsupported call `%s`", c.srcText(call.Pos(), call.End()))
+	}
+	c.cmt(ind, call)
+	// destination: x, x[:], x[off:] with x a local array
+	var base *ast.Ident
+	off := "0%Z"
+	switch d := call.Args[0].(type) {
+	case *ast.Ident:
+		base = d
+	case *ast.SliceExpr:
+		id, ok := d.X.(*ast.Ident)
+		if !ok || d.High != nil || d.Slice3 {
+			c.fail(d, "unsupported destination `%s` (only x[off:] of a local array)", c.srcText(d.Pos(), d.End()))
+		}
+		base = id
+		if d.Low != nil {
+			off = asZ(c.ex(d.Low), c.tyOf(d.Low))
+		}
+	default:
+		c.fail(call.Args[0], "unsupported destination `%s` (only x[off:] of a local array)", c.srcText(call.Args[0].Pos(), call.Args[0].End()))
+	}
+	o := c.obj(base)
+	if o == nil || !c.isLocal(o) || c.isParam(o) >= 0 {
+		c.fail(base, "destination `%s` is not a local array", base.Name)
+	}
+	if _, isArr := o.Type().Underlying().(*types.Array); !isArr {
+		c.fail(base, "destination `%s` is not a local array (writes through a slice could be shared)", base.Name)
+	}
+	src := c.ex(call.Args[1])
+	c.effect = true
+	c.flush(ind)
+	name := coqName(base.Name)
+	if kind == "copy" {
+		c.emitf(ind, "do %s <- Go.copy_at %s %s %s ;;", name, name, off, src)
+	} else {
+		c.emitf(ind, "do %s <- Go.put_le32 %s %s %s ;;", name, name, off, src)
+	}
+	return true
 }
 
 // letVar binds a local variable to a term (renaming the last temporary when the term is one)
